@@ -16,8 +16,9 @@
 (*   lat_ok       every coordinate was on the tick lattice                 *)
 (*   payload_ok   the same call on random reals moved bits the same way    *)
 (*   raised       the call raised an exception (then no result fields)     *)
+(*   steps        (api "zoom_history") the steps made on ONE mask object   *)
 (***************************************************************************)
-EXTENDS Resize, IOUtils
+EXTENDS ZoomHistory, IOUtils
 
 Trace == JsonDeserialize(IOEnv.TRACE_FILE)
 
@@ -145,6 +146,42 @@ ZoomClauses(r) ==
              shp /\ ValidZoom(r.src, r.h, r.w, Un(r), r.oh, r.ow, r.b)),
           Cl("payload-independent", r.payload_ok) >>
 
+\* ---- a history on one mask object: every zoom is judged against the mask current at that time ------------------
+\* r.u is the mask the object started with, r.steps the steps in order: edits (cell, val), reads, and zooms with what
+\* came back (oh, ow, src, payload_ok).
+HistWellFormed(r) ==
+    /\ r.u # << >>
+    /\ \A k \in DOMAIN r.steps :
+          /\ r.steps[k].op \in {"zoom", "edit", "read"}
+          /\ r.steps[k].op = "edit" => /\ r.steps[k].cell >= 0 /\ r.steps[k].cell < r.h * r.w
+                                       /\ r.steps[k].val \in {0, 1}
+          /\ MaskAfter(Un(r), r.steps, k, r.w) # {}
+ZoomSteps(r) == { k \in DOMAIN r.steps : r.steps[k].op = "zoom" }
+\* the zoom steps whose window is not a valid zoom (margin m(step)) of the mask as it was just before the step
+BadZoomSteps(r, useBuffer) ==
+    { k \in ZoomSteps(r) :
+        LET z == r.steps[k]
+            U == MaskAfter(Un(r), r.steps, k - 1, r.w)
+        IN ~ ( /\ z.oh >= 1 /\ z.ow >= 1 /\ Len(z.src) = z.oh * z.ow
+               /\ ValidZoom(z.src, r.h, r.w, U, z.oh, z.ow, IF useBuffer THEN z.b ELSE 0) ) }
+HistoryClauses(r) ==
+    IF ~ HistWellFormed(r) THEN << Cl("driver-history-well-formed", FALSE) >>
+    ELSE << Cl("every-zoom-of-the-history-contains-every-currently-unmasked-pixel-with-its-value",
+               BadZoomSteps(r, FALSE) = {}),
+            Cl("every-zoom-of-the-history-keeps-its-buffer-around-the-current-mask", BadZoomSteps(r, TRUE) = {}),
+            Cl("payload-independent", \A k \in ZoomSteps(r) : r.steps[k].payload_ok) >>
+
+MinOfSet(S) == CHOOSE x \in S : \A y \in S : x <= y
+\* class of the first rejected zoom: was the mask edited after the object had already been zoomed / read?
+HistClass(r) ==
+    LET bad == BadZoomSteps(r, TRUE)
+    IN IF ~ HistWellFormed(r) \/ bad = {} THEN ""
+       ELSE LET k == MinOfSet(bad)
+                edits == { e \in 1 .. k - 1 : r.steps[e].op = "edit" }
+            IN IF \E e \in edits : \E j \in 1 .. e - 1 : r.steps[j].op \in {"zoom", "read"}
+               THEN ":edited-after-first-use"
+               ELSE IF edits # {} THEN ":edited-before-first-use" ELSE ":unedited"
+
 OddKernel(r) == r.kh % 2 = 1 /\ r.kw % 2 = 1 /\ r.kh >= 1 /\ r.kw >= 1
 
 \* an exception of the code under test on an input inside the property's domain is a rejection
@@ -179,6 +216,7 @@ Clauses(r) ==
            IF ~ (OddKernel(r) /\ Trimmable(r.h, r.w, r.kh, r.kw)) THEN << Cl("driver-trimmable-odd-kernel", FALSE) >>
            ELSE DatasetTrimClauses(r)
       [] r.api = "zoom" -> ZoomClauses(r)
+      [] r.api = "zoom_history" -> HistoryClauses(r)
       [] OTHER -> << Cl("unknown-api", FALSE) >>
 
 \* ---- what the specification wanted (for the replay file) ----------------------------------------------
@@ -197,6 +235,16 @@ Want(r) ==
       [] r.api = "dataset_trim" -> [src |-> TrimForKernel(r.h, r.w, Un(r), r.kh, r.kw)]
       [] r.api = "zoom" -> [unmasked |-> r.u, one_valid_shape |-> CodeZoomShape(Un(r), r.b),
                             one_valid_src |-> CodeZoomSrc(r.h, r.w, Un(r), r.b)]
+      [] r.api = "zoom_history" ->
+           IF r.raised \/ ~ HistWellFormed(r) THEN << >>
+           ELSE [rejected_steps |-> BadZoomSteps(r, TRUE),
+                 mask_before_step |-> [k \in DOMAIN r.steps |->
+                                          LET U == MaskAfter(Un(r), r.steps, k - 1, r.w) IN LinSeq(U, r.h, r.w)],
+                 one_valid_window |-> [k \in DOMAIN r.steps |->
+                                          IF r.steps[k].op # "zoom" THEN << >>
+                                          ELSE LET U == MaskAfter(Un(r), r.steps, k - 1, r.w)
+                                               IN [shape |-> CodeZoomShape(U, r.steps[k].b),
+                                                   src |-> CodeZoomSrc(r.h, r.w, U, r.steps[k].b)]]]
       [] OTHER -> << >>
 
 \* ---- signature of the failing input class (used to match known findings) -------------------------------
@@ -212,6 +260,7 @@ Sig(r) ==
       [] r.api = "autopad" ->
            r.api \o (IF FootLeaves(Un(r), r.h, r.w, r.kh, r.kw) THEN ":leaves" ELSE ":fits") \o Ker(r) \o Geo(r)
       [] r.api = "zoom" -> r.api \o (IF TouchesFrame(r) THEN ":touches-frame" ELSE ":interior") \o ":b" \o ToString(r.b)
+      [] r.api = "zoom_history" -> r.api \o (IF r.raised THEN ":raised" ELSE HistClass(r))
       [] OTHER -> r.api
 
 Failed(r) == SelectSeq(Clauses(r), LAMBDA c : ~ c.ok)
